@@ -40,17 +40,27 @@ def ways(body, tracked, extra_effects=()):
             return is_none if isinstance(test.ops[0], ast.Is) else not is_none
         return None
 
-    def walk(block, conds, ups, known=None):
+    def through_local(test, values):
+        """`if flag:` / `if not flag:` with `flag` a tracked name that holds a test computed just before: the test itself"""
+        if isinstance(test, ast.Name) and test.id in values:
+            return values[test.id]
+        if isinstance(test, ast.UnaryOp) and isinstance(test.op, ast.Not) and isinstance(test.operand, ast.Name) and test.operand.id in values:
+            return ast.UnaryOp(op=ast.Not(), operand=values[test.operand.id])
+        return test
+
+    def walk(block, conds, ups, known=None, values=None):
         known = dict(known or {})
+        values = dict(values or {})
         block = _dissolve_continue(list(block))
         for k, st in enumerate(block):
             if isinstance(st, ast.If):
                 rest = block[k + 1:]
+                st = ast.copy_location(ast.If(test=through_local(st.test, values), body=st.body, orelse=st.orelse), st)
                 decided = none_test(st.test, known)
                 if decided is not False:
-                    walk(st.body + rest, conds + ([] if decided else _cond_keys(st.test, True)), list(ups), known)
+                    walk(st.body + rest, conds + ([] if decided else _cond_keys(st.test, True)), list(ups), known, values)
                 if decided is not True:
-                    walk(st.orelse + rest, conds + ([] if decided is False else _cond_keys(st.test, False)), list(ups), known)
+                    walk(st.orelse + rest, conds + ([] if decided is False else _cond_keys(st.test, False)), list(ups), known, values)
                 return
             # `x = a if c else b` on a tracked name is the two ways `c: x = a` and `not c: x = b`
             if isinstance(st, ast.Assign) and len(st.targets) == 1 and isinstance(st.targets[0], ast.Name) and st.targets[0].id in tracked \
@@ -59,7 +69,7 @@ def ways(body, tracked, extra_effects=()):
                 for val, pos in ((st.value.body, True), (st.value.orelse, False)):
                     one = ast.copy_location(ast.Assign(targets=[copy.deepcopy(st.targets[0])], value=val), st)
                     ast.fix_missing_locations(one)
-                    walk([one] + rest, conds + _cond_keys(st.value.test, pos), list(ups), known)
+                    walk([one] + rest, conds + _cond_keys(st.value.test, pos), list(ups), known, values)
                 return
             if isinstance(st, ast.Raise):
                 out.append(Way(frozenset(conds), tuple(ups), "raise"))
@@ -83,6 +93,11 @@ def ways(body, tracked, extra_effects=()):
                         known[tg.id] = st.value.value
                     else:
                         known.pop(tg.id, None)
+                    if isinstance(st, ast.Assign) and isinstance(st.value, (ast.Compare, ast.Call, ast.BoolOp, ast.UnaryOp)) \
+                            and not any(isinstance(x, ast.Name) and x.id == tg.id for x in ast.walk(st.value)):
+                        values[tg.id] = st.value
+                    else:
+                        values.pop(tg.id, None)
             elif isinstance(st, ast.Expr) and isinstance(st.value, ast.Call) and (
                     isinstance(st.value.func, ast.Attribute) and st.value.func.attr in extra_effects
                     or isinstance(st.value.func, ast.Name) and st.value.func.id in extra_effects):
